@@ -458,19 +458,39 @@ def rule_e_split(ctx):
 def _leaf_defs(d, body, op, bb, idx, depth=0):
     """definitions that can supply the value of MIR operand `op` at (bb, idx), looking through plain copies/moves of whole
     locals: list of (block of the definition, descriptor of the defined value).  A constant operand is `defined` where it is used."""
+    return _leaf_defs_p(d, body, op, bb, idx, (), depth)
+
+
+def _tuple_proj(proj):
+    """proj consists only of positional (tuple) field projections"""
+    return all(isinstance(e, list) and e[0] == 'f' and str(e[1]).isdigit() and not e[2] for e in proj)
+
+
+def _leaf_defs_p(d, body, op, bb, idx, want, depth):
+    """_leaf_defs with a pending list `want` of positional field projections still to be applied to the value: `(a, b).1` is
+    followed into the operand `b` AT the statement that builds the tuple (`let (flag, room) = if c { (true, r - 8) } else
+    { (false, r) }` keeps one definition block per alternative instead of an anonymous phi of the components)."""
     if op[0] not in ('c', 'm'):
-        return [(bb, d.operand(op, bb, idx))]
+        return [(bb, d._apply_proj(d.operand(op, bb, idx), [list(e) for e in want]))]
     local, proj = op[1]
-    if proj or depth > 8:
-        return [(bb, d.place(op[1], bb, idx))]
+    fallback = [(bb, d._apply_proj(d.place(op[1], bb, idx), [list(e) for e in want]))]
+    if depth > 12 or (proj and not _tuple_proj(proj)):
+        return fallback
+    want = tuple(tuple(e) for e in proj) + tuple(want)
+    defs = d.reaching_defs(local, bb, idx)
+    if want and (not defs or any(df[0] not in ('stmt', 'call') for df in defs)):
+        # partial writes / parameters / yields under a projection: no single defining statement
+        return fallback
     out = []
-    for df in d.reaching_defs(local, bb, idx):
+    for df in defs:
         if df[0] == 'stmt' and df[3][0] == 'use':
-            out.extend(_leaf_defs(d, body, df[3][1], df[1], df[2], depth + 1))
+            out.extend(_leaf_defs_p(d, body, df[3][1], df[1], df[2], want, depth + 1))
+        elif df[0] == 'stmt' and want and df[3][0] == 'agg' and df[3][1][0] == 'tuple' and int(want[0][1]) < len(df[3][2]):
+            out.extend(_leaf_defs_p(d, body, df[3][2][int(want[0][1])], df[1], df[2], want[1:], depth + 1))
         elif df[0] == 'stmt':
-            out.append((df[1], d.rvalue(df[3], df[1], df[2], 0)))
+            out.append((df[1], d._apply_proj(d.rvalue(df[3], df[1], df[2], 0), [list(e) for e in want])))
         elif df[0] == 'call':
-            out.append((df[1], d.call_desc(df[2], 0)))
+            out.append((df[1], d._apply_proj(d.call_desc(df[2], 0), [list(e) for e in want])))
         else:
             out.append((bb, ('local', local, body.locals[local][1])))
     return out
